@@ -139,13 +139,13 @@ package scanner
 //@   ensures inv(s) && s.offset >= old(s.offset)
 //@   ensures [len] len(result) <= s.offset - (old(s.offset)-1)
 //@ loop (*Scanner).scanComment#1
-//@   invariant inv(s) && s.offset > old(s.offset) && offs == old(s.offset) - 1 && numCR >= 0
+//@   invariant inv(s) && s.offset > old(s.offset) && offs == old(s.offset) - 1 && numCR >= 0 && s.offset - offs >= numCR + 1
 //@   decreases len(s.src) - s.offset
 //@ loop (*Scanner).scanComment#2
-//@   invariant inv(s) && s.offset > old(s.offset) && offs == old(s.offset) - 1 && numCR >= 0
+//@   invariant inv(s) && s.offset > old(s.offset) && offs == old(s.offset) - 1 && numCR >= 0 && s.offset - offs >= numCR + 1
 //@   decreases len(s.src) - s.offset
 //@ loop (*Scanner).scanComment#3
-//@   invariant inv(s) && s.offset >= old(s.offset) && offs == old(s.offset) - 1 && numCR >= 0
+//@   invariant inv(s) && s.offset >= old(s.offset) && offs == old(s.offset) - 1 && numCR >= 0 && s.offset - offs >= numCR + 1
 //@   decreases len(s.src) - s.offset
 //@
 //@ func (*Scanner).findLineEnd
@@ -171,7 +171,32 @@ package scanner
 //@   ensures [posrange] 0 <= fileOff(s, pos) && fileOff(s, pos) <= len(s.src)
 //@   ensures [eof] tok == token.EOF ==> s.offset == len(s.src) && s.ch == -1
 //@   ensures [progress] tok != token.EOF ==> s.offset > old(s.offset) || (s.offset == old(s.offset) && mu2(s) < old(mu2(s)))
+//@   ensures [mono] fileOff(s, pos) >= old(s.offset) - len(old(s.unitVal)) && s.offset - len(s.unitVal) >= fileOff(s, pos)
+//@   ensures [ident-text] tok == token.IDENT || IsKeyword(tok) ==> lit == string(s.src[fileOff(s, pos):s.offset])
+//@   ensures [num-text] tok == token.INT || tok == token.FLOAT || tok == token.IMAG || tok == token.RAT ==>
+//@             lit == string(s.src[fileOff(s, pos):s.offset-len(s.unitVal)])
+//@   ensures [char-text] tok == token.CHAR ==> lit == string(s.src[fileOff(s, pos):s.offset])
+//@   ensures [string-text] tok == token.STRING && s.src[fileOff(s, pos)] == '"' ==> lit == string(s.src[fileOff(s, pos):s.offset])
+//@   ensures [rawstring-len] tok == token.STRING ==> len(lit) <= s.offset - fileOff(s, pos)
+//@   ensures [cstring-text] tok == token.CSTRING ==> lit == string(s.src[fileOff(s, pos)+1:s.offset])
+//@   ensures [pystring-text] tok == token.PYSTRING ==> lit == string(s.src[fileOff(s, pos)+2:s.offset])
+//@   ensures [unit-text] tok == token.UNIT ==> fileOff(s, pos) + len(lit) == s.offset && lit == string(s.src[fileOff(s, pos):s.offset])
+//@   ensures [semi-text] tok == token.SEMICOLON ==> lit == "\n" || (lit == ";" && s.src[fileOff(s, pos)] == ';' && s.offset == fileOff(s, pos) + 1)
+//@   ensures [op-text] IsOperator(tok) && tok != token.SEMICOLON ==> s.offset == fileOff(s, pos) + len(token.tokens[tok]) &&
+//@             string(s.src[fileOff(s, pos):s.offset]) == token.tokens[tok]
+//@   ensures [comment-len] tok == token.COMMENT ==> len(lit) <= s.offset - fileOff(s, pos)
 //@ loop (*Scanner).Scan#1
 //@   invariant inv(s) && fileSize(s.file) == len(s.src) && unitOK(s) && s.offset >= old(s.offset)
 //@   invariant s.offset == old(s.offset) ==> s.insertSemi == old(s.insertSemi) && s.unitVal == old(s.unitVal)
 //@   decreases len(s.src) - s.offset
+//@
+//@ func (*Scanner).InitEx
+//@   requires s != nil && file != nil && 0 <= offset && offset <= len(src)
+//@   assigns s.file, s.dir, s.src, s.err, s.mode, s.ch, s.offset, s.rdOffset, s.lineOffset, s.insertSemi, s.ErrorCount
+//@   ensures inv(s) && s.src == src && s.file == file && !s.insertSemi && s.offset >= offset
+//@
+//@ func (*Scanner).Init
+//@   requires s != nil && file != nil
+//@   assigns s.file, s.dir, s.src, s.err, s.mode, s.ch, s.offset, s.rdOffset, s.lineOffset, s.insertSemi, s.ErrorCount
+//@   panics_if fileSize(file) != len(src)
+//@   ensures inv(s) && s.src == src && s.file == file && !s.insertSemi && fileSize(s.file) == len(s.src)
